@@ -171,10 +171,6 @@ Lemma recv_seq_reset_all_runs fixed server l :
 Proof. apply run_inv_rseq. intros H. simpl in H. discriminate. Qed.
 
 (* ---- send sequence number ------------------------------------------------------------------------------ *)
-Lemma note_all_count : forall l s,
-  ~ In 21 l -> send_seq (note_all s l) = (send_seq s + Z.of_nat (List.length l)) mod M32 \/ l = [].
-Proof. intros. destruct l; [right; reflexivity|left]. revert s. Abort.
-
 Lemma note_all_no21 : forall l s,
   ~ In 21 l -> 0 <= send_seq s < M32 ->
   send_seq (note_all s l) = (send_seq s + Z.of_nat (List.length l)) mod M32.
@@ -264,22 +260,325 @@ Definition allowed_clear (t : Z) : Prop := t = 20 \/ t = 21 \/ 30 <= t <= 49.
 
 (* one packet received while still in clear, from any state in which no authentication object, task or
    EXT_INFO permission exists yet *)
+Ltac zb :=
+  repeat match goal with
+         | H : _ && _ = true |- _ => apply andb_true_iff in H; destruct H
+         | H : negb _ = true |- _ => apply negb_true_iff in H
+         | H : negb _ = false |- _ => apply negb_false_iff in H
+         | H : (_ =? _) = true |- _ => apply Z.eqb_eq in H
+         | H : (_ <=? _) = true |- _ => apply Z.leb_le in H
+         | H : (_ <? _) = true |- _ => apply Z.ltb_lt in H
+         | H : (_ =? _) = false |- _ => apply Z.eqb_neq in H
+         end.
+
 Lemma dispatch_clear fixed c seq t cls :
   recv_enc c = false -> auth c = 0 -> can_recv_ext c = false -> pending c = [] ->
   let c' := dispatch fixed c seq t cls in
   closed c' = true \/
   ((recv_enc c' = false -> auth c' = 0 /\ can_recv_ext c' = false /\ pending c' = []) /\
    (strict c = true -> allowed_clear t) /\
-   (strict c = false -> strict c' = true -> t = 20 /\ seq = 0 /\ sid c = false)).
+   (strict c = false -> strict c' = true -> t = 20 /\ seq = 0 /\ sid c = false) /\
+   (t = 21 -> recv_enc c' = true)).
 Proof.
   intros Hr Ha He Hp. cbv zeta.
   unfold_model; cbv zeta; rewrite ?Hr, ?Ha, ?He, ?Hp; crush_ifs; autorewrite with frame; cbn; autorewrite with frame; cbn;
     rewrite ?Hr, ?Ha, ?He, ?Hp;
     try (left; reflexivity);
-    right; unfold allowed_clear; (split; [|split]);
+    right; unfold allowed_clear; (split; [|split; [|split]]);
     try (intros; repeat split; congruence);
-    try (intros; lia);
     try (intros; discriminate);
-    try (unfold is_deleg in *; intros; lia);
-    try (intros; repeat split; try lia; destruct (sid c); simpl in *; congruence).
-Admitted.
+    try (unfold is_deleg in *; cbn in *; intros; zb; try subst t; cbn in *; try discriminate;
+         repeat split; try congruence; try lia;
+         try (match goal with H : strict c = true, H2 : context [strict c] |- _ => rewrite H in H2; cbn in H2; try discriminate end);
+         try (match goal with H : _ || _ = true |- _ =>
+                repeat (apply orb_true_iff in H; destruct H as [H|H]); zb; subst; cbn in *; discriminate end);
+         try (match goal with H2 : context [recv_enc c] |- _ => rewrite Hr in H2; cbn in H2; zb; try assumption; try lia end)).
+Qed.
+
+
+Lemma dispatch_strict_flip fixed c seq t cls :
+  strict c = false -> strict (dispatch fixed c seq t cls) = true -> sid c = false.
+Proof.
+  intros Hs. unfold_model; cbv zeta; crush_ifs; autorewrite with frame; cbn; autorewrite with frame; cbn;
+    rewrite ?Hs; try (intros D; discriminate D); intros _; zb; assumption.
+Qed.
+
+Lemma dispatch_recv_enc_mono fixed c seq t cls :
+  recv_enc c = true -> recv_enc (dispatch fixed c seq t cls) = true.
+Proof.
+  intros Hr. unfold_model; cbv zeta; crush_ifs; autorewrite with frame; cbn; autorewrite with frame; cbn;
+    rewrite ?Hr; reflexivity.
+Qed.
+
+Record inv_clear (s : st) : Prop := {
+  ic_sid : pre_sid (cn s);
+  ic_pre : recv_enc (cn s) = false -> closed (cn s) = false ->
+           auth (cn s) = 0 /\ can_recv_ext (cn s) = false /\ pending (cn s) = [] /\
+           recv_seq s = Z.of_nat (List.length (clear_acc s)) /\ recv_seq s < M32;
+  ic_strict : strict (cn s) = true -> closed (cn s) = false ->
+              Forall allowed_clear (clear_acc s) /\ (exists r, clear_acc s = 20 :: r)
+}.
+
+Lemma inv_clear_init server : inv_clear (init server).
+Proof.
+  split; simpl.
+  - intros _. auto.
+  - intros _ _. repeat split; auto; unfold M32; lia.
+  - intros D. discriminate D.
+Qed.
+
+Lemma pre_sid_fatal c : pre_sid c -> pre_sid (fatal c).
+Proof. unfold pre_sid, fatal, emit. cbn. auto. Qed.
+
+Lemma inv_clear_recv fixed s t cls : inv_clear s -> inv_clear (recv fixed s t cls).
+Proof.
+  intros [Isid Ipre Istr]. unfold recv.
+  destruct (closed (cn s)) eqn:Ec; [split; [exact Isid | intros _ D; congruence | intros _ D; congruence]|].
+  set (c1 := dispatch fixed (cn s) (recv_seq s) t cls).
+  assert (Hsid1 : pre_sid c1) by (apply dispatch_pre_sid; exact Isid).
+  destruct (closed c1) eqn:Ec1.
+  { split; cbn [with_conn cn recv_seq clear_acc]; [exact Hsid1 | intros _ D; congruence | intros _ D; congruence]. }
+  unfold finish_recv.
+  set (c2 := if 79 <? t then set_auth_final true c1 else c1).
+  assert (Hc2 : recv_enc c2 = recv_enc c1 /\ strict c2 = strict c1 /\ auth c2 = auth c1 /\
+                can_recv_ext c2 = can_recv_ext c1 /\ pending c2 = pending c1 /\ closed c2 = closed c1 /\
+                sid c2 = sid c1 /\ next_recv c2 = next_recv c1).
+  { unfold c2. destruct (79 <? t); cbn; repeat split; reflexivity. }
+  destruct Hc2 as (Q1 & Q2 & Q3 & Q4 & Q5 & Q6 & Q7 & Q8).
+  assert (Hsid2 : pre_sid c2) by (unfold pre_sid in *; rewrite Q7, Q8, Q1; exact Hsid1).
+  destruct ((recv_seq s =? M32 - 1) && negb (recv_enc c2)) eqn:Er.
+  { split; cbn [with_conn cn recv_seq clear_acc].
+    - apply pre_sid_fatal. exact Hsid2.
+    - intros _ D. cbn in D. discriminate D.
+    - intros _ D. cbn in D. discriminate D. }
+  destruct (recv_enc (cn s)) eqn:Ere.
+  - (* already receiving encrypted: the clear history is frozen *)
+    assert (Hm : recv_enc c1 = true) by (apply dispatch_recv_enc_mono; exact Ere).
+    split; cbn [cn recv_seq clear_acc].
+    + exact Hsid2.
+    + rewrite Q1, Hm. intros D. discriminate D.
+    + rewrite Q2, Q6. intros Hs1 _.
+      destruct (strict (cn s)) eqn:Es.
+      * apply Istr; auto.
+      * pose proof (dispatch_strict_flip fixed (cn s) (recv_seq s) t cls Es Hs1) as Hf.
+        destruct (Isid Hf) as [_ Hx]. congruence.
+  - (* still receiving in clear *)
+    destruct (Ipre eq_refl eq_refl) as (Pa & Pe & Pp & Pq & Pb).
+    pose proof (dispatch_clear fixed (cn s) (recv_seq s) t cls Ere Pa Pe Pp) as Hd. cbv zeta in Hd.
+    fold c1 in Hd. destruct Hd as [Hd|(D1 & D2 & D3 & D4)]; [congruence|].
+    assert (Hnr : recv_seq s + 1 < M32 \/ recv_enc c2 = true).
+    { apply andb_false_iff in Er. destruct Er as [Er|Er].
+      - left. apply Z.eqb_neq in Er. lia.
+      - right. apply negb_false_iff in Er. exact Er. }
+    split; cbn [cn recv_seq clear_acc].
+    + exact Hsid2.
+    + rewrite Q1, Q3, Q4, Q5. intros Hr1 _. destruct (D1 Hr1) as (A1 & A2 & A3).
+      repeat split; auto.
+      * destruct (t =? 21) eqn:E21.
+        { apply Z.eqb_eq in E21. rewrite (D4 E21) in Hr1. discriminate Hr1. }
+        cbn [andb]. destruct Hnr as [Hnr|Hnr]; [|congruence].
+        rewrite Z.mod_small by lia. rewrite app_length. simpl. lia.
+      * destruct ((t =? 21) && strict c2); [unfold M32; lia|]. apply Z.mod_pos_bound. unfold M32. lia.
+    + rewrite Q2, Q6. intros Hs1 _.
+      destruct (strict (cn s)) eqn:Es.
+      * destruct (Istr eq_refl eq_refl) as [F [r Hr]]. split.
+        -- apply Forall_app. split; [exact F|]. constructor; [apply D2; reflexivity|constructor].
+        -- exists (r ++ [t]). rewrite Hr. reflexivity.
+      * destruct (D3 eq_refl Hs1) as (T20 & S0 & _).
+        assert (Hnil : clear_acc s = []).
+        { destruct (clear_acc s); [reflexivity|]. simpl in Pq. lia. }
+        rewrite Hnil. subst t. simpl. split.
+        -- constructor; [left; reflexivity|constructor].
+        -- exists []. reflexivity.
+Qed.
+
+Lemma run_tasks_closed_mono : forall n c, closed c = true -> closed (run_tasks n c) = true.
+Proof. intros n c H. rewrite run_tasks_closed_id; assumption. Qed.
+
+Lemma inv_clear_step fixed s e : inv_clear s -> inv_clear (step fixed s e).
+Proof.
+  intros I. destruct e as [|t cls|]; cbn [step].
+  - destruct (closed (cn s)) eqn:Ec; [exact I|].
+    destruct I as [Isid Ipre Istr]. split; cbn.
+    + exact Isid.
+    + exact Ipre.
+    + exact Istr.
+  - apply inv_clear_recv. exact I.
+  - destruct I as [Isid Ipre Istr].
+    destruct (closed (cn s)) eqn:Ec.
+    { rewrite run_tasks_closed_id by exact Ec. split; cbn [with_conn cn recv_seq clear_acc];
+        [exact Isid | intros _ D; congruence | intros _ D; congruence]. }
+    destruct (recv_enc (cn s)) eqn:Ere.
+    + split; cbn [with_conn cn recv_seq clear_acc].
+      * apply run_tasks_pre_sid. exact Isid.
+      * rewrite run_tasks_recv_enc, Ere. intros D. discriminate D.
+      * rewrite run_tasks_strict. intros Hs _. apply Istr; auto.
+    + destruct (Ipre eq_refl eq_refl) as (Pa & Pe & Pp & Pq & Pb).
+      rewrite run_tasks_nopending by exact Pp.
+      split; cbn [with_conn cn recv_seq clear_acc]; [exact Isid | rewrite Ere, Ec; exact Ipre | rewrite Ec; exact Istr].
+Qed.
+
+Lemma inv_clear_begin s : inv_clear s -> inv_clear (begin_step s).
+Proof. intros [A B C]. split; cbn; assumption. Qed.
+
+Lemma inv_clear_note s l : inv_clear s -> inv_clear (note_all s l).
+Proof.
+  intros [A B C]. destruct (note_all_frame l s) as (E1 & E2 & E3 & E4).
+  split; rewrite ?E1, ?E2, ?E4; assumption.
+Qed.
+
+Lemma run_inv_clear fixed : forall l s, inv_clear s -> inv_clear (run fixed s l).
+Proof.
+  induction l as [|e r IH]; intros s I; simpl; [exact I|]. apply IH.
+  unfold step_booked. apply inv_clear_note, inv_clear_step, inv_clear_begin. exact I.
+Qed.
+
+(* In every run: if strict KEX was negotiated and the connection is still up, the packets accepted while
+   receiving in clear were the KEXINIT first and then only exchange-specific messages and NEWKEYS; and as
+   long as the connection receives in clear their number equals the receive sequence number. *)
+Lemma strict_initial_all_runs fixed server l :
+  let s := run fixed (init server) l in
+  closed (cn s) = false ->
+  (strict (cn s) = true -> Forall allowed_clear (clear_acc s) /\ exists r, clear_acc s = 20 :: r) /\
+  (recv_enc (cn s) = false -> recv_seq s = Z.of_nat (List.length (clear_acc s))).
+Proof.
+  cbv zeta. intros Hc. destruct (run_inv_clear fixed l _ (inv_clear_init server)) as [A B C]. split.
+  - intros Hs. apply C; assumption.
+  - intros Hr. destruct (B Hr Hc) as (_ & _ & _ & Q & _). exact Q.
+Qed.
+
+(* ---- the phase gate, in every state ------------------------------------------------------------------------ *)
+Lemma gate_prekex_fatal fixed c seq t cls :
+  recv_enc c = false -> auth c = 0 -> 49 < t -> closed (dispatch fixed c seq t cls) = true.
+Proof.
+  intros Hr Ha Ht. unfold dispatch. rewrite Hr, Ha. cbn [negb andb Z.eqb].
+  destruct ((30 <=? t) && (t <=? 49)) eqn:E1; [zb; lia|].
+  destruct (strict c && true && (2 <=? t) && (t <=? 4)) eqn:E0; [reflexivity|].
+  destruct ((60 <=? t) && (t <=? 79)) eqn:E2; [reflexivity|].
+  assert (E3 : (49 <? t) = true) by (apply Z.ltb_lt; exact Ht). rewrite E3. reflexivity.
+Qed.
+
+Lemma gate_preauth_fatal fixed c seq t cls :
+  auth_complete c = false -> 79 < t -> closed (dispatch fixed c seq t cls) = true.
+Proof.
+  intros Hr Ht. unfold dispatch. rewrite Hr. cbn [negb andb Z.eqb].
+  destruct ((30 <=? t) && (t <=? 49)) eqn:E1; [zb; lia|].
+  destruct (strict c && negb (recv_enc c) && (2 <=? t) && (t <=? 4)) eqn:E0; [reflexivity|].
+  destruct ((60 <=? t) && (t <=? 79)) eqn:E2; [zb; lia|].
+  destruct ((49 <? t) && negb (recv_enc c)) eqn:E3; [reflexivity|].
+  assert (E4 : (79 <? t) = true) by (apply Z.ltb_lt; exact Ht). rewrite E4. reflexivity.
+Qed.
+
+(* a message only the other role may send ends the connection, in every state *)
+Lemma role_foreign_fatal fixed c seq t cls :
+  (srv c = false /\ (t = 5 \/ t = 30 \/ t = 50)) \/
+  (srv c = true /\ (t = 6 \/ t = 31 \/ t = 51 \/ t = 52 \/ t = 53)) ->
+  closed (dispatch fixed c seq t cls) = true.
+Proof.
+  intros [[Hs Ht]|[Hs Ht]]; repeat (destruct Ht as [Ht|Ht]); subst t;
+    unfold_model; cbv zeta; rewrite ?Hs; cbn; crush_ifs; autorewrite with frame; cbn; rewrite ?Hs in *; cbn in *;
+    try reflexivity; try discriminate.
+Qed.
+
+(* ---- USERAUTH_SUCCESS on a client ------------------------------------------------------------------------- *)
+(* the code as it is: a run in which success is accepted although no request of the client's is outstanding
+   (SERVICE_ACCEPT and USERAUTH_SUCCESS arrive in one chunk: the auth object exists, its start task - which
+   would send the request - has not run yet) *)
+Definition unsolicited_witness : list event :=
+  [EvVersion; EvRecv 20 1; EvSettle; EvRecv 31 0; EvSettle; EvRecv 21 0; EvSettle; EvRecv 6 0; EvRecv 52 0; EvSettle].
+
+Lemma success_unsolicited_cur :
+  let s := run false (init false) unsolicited_witness in
+  auth_complete (cn s) = true /\ closed (cn s) = false /\ unsolicited (cn s) = true.
+Proof. vm_compute. auto. Qed.
+
+(* the same run against the repaired gate ends the connection instead *)
+Lemma success_unsolicited_fixed_witness :
+  closed (cn (run true (init false) unsolicited_witness)) = true.
+Proof. vm_compute. reflexivity. Qed.
+
+Lemma dispatch_unsolicited_fixed c seq t cls :
+  unsolicited c = false -> unsolicited (dispatch true c seq t cls) = false.
+Proof.
+  intros Hu. unfold_model; cbv zeta; crush_ifs; autorewrite with frame; cbn; autorewrite with frame; cbn;
+    rewrite ?Hu; try reflexivity.
+  all: zb; cbn in *; match goal with H : req_issued _ = true |- _ => rewrite H end; reflexivity.
+Qed.
+
+Lemma run_task_unsolicited c k : unsolicited (run_task c k) = unsolicited c.
+Proof. destruct k; unfold run_task; frame. Qed.
+Lemma run_tasks_unsolicited : forall n c, unsolicited (run_tasks n c) = unsolicited c.
+Proof.
+  induction n as [|n IH]; intros c; simpl; [reflexivity|].
+  destruct (closed c); [reflexivity|]. destruct (pending c) as [|k r]; [reflexivity|].
+  rewrite IH, run_task_unsolicited. reflexivity.
+Qed.
+
+Lemma step_unsolicited_fixed s e :
+  unsolicited (cn s) = false -> unsolicited (cn (step true s e)) = false.
+Proof.
+  intros H. destruct e as [|t cls|]; cbn [step].
+  - destruct (closed (cn s)); [exact H|]. cbn. exact H.
+  - unfold recv. destruct (closed (cn s)); [exact H|].
+    pose proof (dispatch_unsolicited_fixed (cn s) (recv_seq s) t cls H) as H1.
+    destruct (closed (dispatch true (cn s) (recv_seq s) t cls)); [exact H1|].
+    unfold finish_recv. destruct (79 <? t); crush_ifs; cbn; exact H1.
+  - cbn [with_conn cn]. rewrite run_tasks_unsolicited. exact H.
+Qed.
+
+Lemma success_outstanding_fixed_all_runs : forall l s,
+  unsolicited (cn s) = false -> unsolicited (cn (run true s l)) = false.
+Proof.
+  induction l as [|e r IH]; intros s H; simpl; [exact H|]. apply IH. unfold step_booked.
+  destruct (note_all_frame (map fst (olog (cn (step true (begin_step s) e)))) (step true (begin_step s) e)) as (A & _).
+  rewrite A. apply step_unsolicited_fixed. cbn. exact H.
+Qed.
+
+(* ---- after authentication completed on a server, nothing a client sends changes who is authenticated ---- *)
+Definition post_ok (u : Z) (c : conn) : Prop :=
+  srv c = true /\ auth_complete c = true /\ pending c = [] /\ auth c = 0 /\ authed c = u.
+
+Lemma dispatch_post_ok fixed u c seq t cls :
+  post_ok u c -> closed (dispatch fixed c seq t cls) = true \/ post_ok u (dispatch fixed c seq t cls).
+Proof.
+  intros (H1 & H2 & H3 & H4 & H5). unfold post_ok.
+  unfold_model; cbv zeta; rewrite ?H1, ?H2, ?H3, ?H4; cbn; crush_ifs; autorewrite with frame; cbn;
+    autorewrite with frame; cbn; rewrite ?H1, ?H2, ?H3, ?H4;
+    try (left; reflexivity); right; repeat split; try assumption; try reflexivity; try discriminate.
+Qed.
+
+Definition post_inv (u : Z) (s : st) : Prop := closed (cn s) = true \/ post_ok u (cn s).
+
+Lemma step_post_inv fixed u s e : post_inv u s -> post_inv u (step fixed s e).
+Proof.
+  intros [Hc|Hp]; destruct e as [|t cls|]; cbn [step].
+  - rewrite Hc. left. exact Hc.
+  - unfold recv. rewrite Hc. left. exact Hc.
+  - left. cbn [with_conn cn]. rewrite run_tasks_closed_id; exact Hc.
+  - destruct (closed (cn s)) eqn:Ec; [left; exact Ec|]. right. destruct Hp as (H1 & H2 & H3 & H4 & H5).
+    unfold post_ok. cbn. auto.
+  - unfold recv. destruct (closed (cn s)) eqn:Ec; [left; exact Ec|].
+    destruct (dispatch_post_ok fixed u (cn s) (recv_seq s) t cls Hp) as [D|D].
+    + rewrite D. left. exact D.
+    + destruct (closed (dispatch fixed (cn s) (recv_seq s) t cls)) eqn:Ec1; [left; exact Ec1|].
+      unfold finish_recv. crush_ifs; cbn; try (left; reflexivity); right;
+        destruct D as (H1 & H2 & H3 & H4 & H5); unfold post_ok; cbn; auto.
+  - right. cbn [with_conn cn]. destruct Hp as (H1 & H2 & H3 & H4 & H5). rewrite run_tasks_nopending by exact H3.
+    unfold post_ok. auto.
+Qed.
+
+Lemma run_post_inv fixed u : forall l s, post_inv u s -> post_inv u (run fixed s l).
+Proof.
+  induction l as [|e r IH]; intros s H; simpl; [exact H|]. apply IH. unfold step_booked.
+  destruct (note_all_frame (map fst (olog (cn (step fixed (begin_step s) e)))) (step fixed (begin_step s) e)) as (A & _).
+  unfold post_inv. rewrite A. apply step_post_inv.
+  destruct H as [H|(H1 & H2 & H3 & H4 & H5)]; [left; exact H|right; unfold post_ok; cbn; auto].
+Qed.
+
+(* the scripted session of the harness server in the model: alice authenticates, the state satisfies post_ok *)
+Definition server_login : list event :=
+  [EvVersion; EvRecv 20 1; EvSettle; EvRecv 30 0; EvSettle; EvRecv 21 0; EvSettle; EvRecv 5 0; EvSettle;
+   EvRecv 50 100; EvSettle; EvRecv 50 111; EvSettle].
+
+Lemma server_login_post_ok fixed : post_ok 1 (cn (run fixed (init true) server_login)).
+Proof. destruct fixed; vm_compute; auto. Qed.
